@@ -604,6 +604,52 @@ fn cell_count(before: &Snap, reg: &Reg, nvars: usize) -> usize {
         .sum()
 }
 
+/// Container-level integrity of the sampler's operator string, through the public navigation API only
+/// (model independent): (1) `get_count(b)` for every bond equals a scan of the slots; (2) for every
+/// variable the world line followed through the per-variable links (`get_first_p_for_var`,
+/// `get_next_p_for_rel_var`) visits exactly the slots whose operator acts on that variable, in order, and
+/// the relative index handed out points at that variable.
+fn integrity(g: &G, m: &Model) -> Result<(), String> {
+    let mgr = g.get_manager_ref();
+    let s = snap(g);
+    let nb = m.edges.len() + 2 * m.nvars;
+    for b in 0..nb {
+        let scan = s.slots.iter().filter(|o| o.as_ref().map(|o| o.bond == b).unwrap_or(false)).count();
+        let cnt = mgr.get_count(b);
+        if cnt != scan {
+            return Err(format!("get_count({}) = {} but {} operators on that bond are in the string", b, cnt, scan));
+        }
+    }
+    let n_scan = s.slots.iter().filter(|o| o.is_some()).count();
+    if mgr.get_n() != n_scan {
+        return Err(format!("get_n() = {} but {} operators are in the string", mgr.get_n(), n_scan));
+    }
+    for v in 0..m.nvars {
+        let want: Vec<usize> = s.slots.iter().enumerate().filter(|(_, o)| o.as_ref().map(|o| o.vars.contains(&v)).unwrap_or(false)).map(|(p, _)| p).collect();
+        let mut got = vec![];
+        let mut cur = mgr.get_first_p_for_var(v);
+        while let Some(PRel { p, relv }) = cur {
+            if got.len() > want.len() + 1 {
+                return Err(format!("world line of variable {} does not terminate ({:?} ...)", v, got));
+            }
+            let node = match mgr.get_node_ref(p) {
+                Some(n) => n,
+                None => return Err(format!("world line of variable {} leads to the empty slot {}", v, p)),
+            };
+            let vars = node.get_op_ref().get_vars();
+            if vars.get(relv) != Some(&v) {
+                return Err(format!("world line of variable {}: at slot {} the link's relative index {} points at variable {:?} (operator on {:?})", v, p, relv, vars.get(relv), vars));
+            }
+            got.push(p);
+            cur = mgr.get_next_p_for_rel_var(relv, node);
+        }
+        if got != want {
+            return Err(format!("world line of variable {} visits slots {:?} but the operators acting on it are at {:?}", v, got, want));
+        }
+    }
+    Ok(())
+}
+
 fn close(a: f64, b: f64) -> bool {
     (a - b).abs() <= 1e-9 * a.abs().max(b.abs()).max(1e-300) || (a.abs() < 1e-15 && b.abs() < 1e-15)
 }
@@ -640,6 +686,38 @@ fn observe(g: &mut G, rng: &Shared, m: &Model, stats: &mut std::collections::BTr
     }
     if (succ == 1) != t.accepted {
         fails.push("returned success count disagrees with the trace".into());
+    }
+    // --- container integrity after the update (bond counts, per-variable links), and follow-up steps on a
+    // clone (cluster, diagonal, another RVB update) so that a corrupted string surfaces
+    match catch(std::panic::AssertUnwindSafe(|| integrity(g, m))) {
+        Ok(Ok(())) => {}
+        Ok(Err(e)) => fails.push(format!("after the update: {}", e)),
+        Err(msg) => fails.push(format!("navigating the string after the update panicked: {}", msg)),
+    }
+    {
+        let mut gf = g.clone();
+        rng.free();
+        let r = catch(std::panic::AssertUnwindSafe(|| {
+            gf.single_cluster_step();
+            gf.single_diagonal_step(m.beta);
+            gf.single_rvb_sweep(Some(1));
+        }));
+        rng.free();
+        let _ = take_trace();
+        match r {
+            Err(msg) => fails.push(format!("cluster / diagonal / RVB steps following the update panicked: {}", msg)),
+            Ok(()) => {
+                let sf = snap(&gf);
+                match catch(std::panic::AssertUnwindSafe(|| integrity(&gf, m))) {
+                    Ok(Ok(())) => {}
+                    Ok(Err(e)) => fails.push(format!("after cluster / diagonal / RVB steps following the update: {}", e)),
+                    Err(msg) => fails.push(format!("navigating the string after the follow-up steps panicked: {}", msg)),
+                }
+                if propagate_check(gf.get_manager_ref(), &sf.state).map(|x| x != sf.state).unwrap_or(true) {
+                    fails.push("after cluster / diagonal / RVB steps following the update the configuration is not consistent".into());
+                }
+            }
+        }
     }
     // --- oracle, model independent
     match propagate_check(g.get_manager_ref(), &after.state) {
@@ -988,6 +1066,12 @@ fn models(g: &mut SplitMix64, thorough: bool) -> Vec<Model> {
         v.push(Model { name: "underflow", nvars: 3, edges: vec![((0, 1), 2.0), ((0, 2), 2.0), ((1, 2), 0.125)], gamma: 0.5, h: 0.0, beta: 4.0 });
         // weak transverse field: few constant operators, idle variables occur
         v.push(Model { name: "weak_gamma", nvars: 4, edges: vec![((0, 1), 1.0), ((1, 2), 1.0), ((2, 3), 1.0), ((0, 3), 1.0), ((0, 2), 0.5)], gamma: 0.125, h: 0.0, beta: *g.pick(&betas) });
+        // duplicate edges between the same two spins with opposite signs, listed in the same and in the
+        // OPPOSITE orientation: an RVB move rotates operators between them (same variable set, other bond /
+        // other variable order: the quick-install path of `mutate_p`)
+        v.push(Model { name: "anti_pair", nvars: 2, edges: vec![((0, 1), 1.0), ((1, 0), -0.5)], gamma: *g.pick(&gammas), h: 0.0, beta: *g.pick(&betas) });
+        v.push(Model { name: "dup_pair", nvars: 2, edges: vec![((0, 1), 1.0), ((0, 1), -0.5), ((1, 0), 0.25)], gamma: *g.pick(&gammas), h: if rep % 2 == 1 { 0.5 } else { 0.0 }, beta: *g.pick(&betas) });
+        v.push(Model { name: "anti_triangle", nvars: 3, edges: vec![((0, 1), 1.0), ((1, 0), -1.0), ((1, 2), *g.pick(&js)), ((2, 1), -0.5), ((2, 0), 1.0), ((0, 2), -2.0)], gamma: *g.pick(&gammas), h: *g.pick(&hs), beta: *g.pick(&betas) });
         // diluted graphs: some couplings exactly 0 (F21: the cluster must not grow across them, no panic)
         v.push(Model { name: "diluted_triangle", nvars: 3, edges: vec![((0, 1), *g.pick(&js)), ((1, 2), 0.0), ((0, 2), *g.pick(&js))], gamma: *g.pick(&gammas), h: if rep % 3 == 2 { 0.5 } else { 0.0 }, beta: *g.pick(&betas) });
         let n = g.range(4, 5) as usize;
@@ -1151,6 +1235,13 @@ fn pipeline_mode(a: &Args) {
                 let (sa, sb) = (snap(&ga), snap(&gb));
                 if sa != sb || ga.get_cutoff() != gb.get_cutoff() {
                     fails.push(format!("step {}: timestep (automatic RVB) differs from single_diagonal_step; single_rvb_sweep(None); single_cluster_step with the same draws", t));
+                }
+                for (who, gg) in [("timestep", &ga), ("the explicit decomposition", &gb)] {
+                    match catch(std::panic::AssertUnwindSafe(|| integrity(gg, &m))) {
+                        Ok(Ok(())) => {}
+                        Ok(Err(e)) => fails.push(format!("after {}: {}", who, e)),
+                        Err(msg) => fails.push(format!("navigating the string after {} panicked: {}", who, msg)),
+                    }
                 }
                 if tra.len() != trb.len() {
                     fails.push(format!("{} RVB proposals inside timestep, {} in the explicit sweep", tra.len(), trb.len()));
